@@ -30,27 +30,36 @@ func dirOracle(s *explore.Sess) string {
 	for _, sg := range segs {
 		live[sg.Name] = true
 	}
-	allowed := map[string]bool{"lock": true, "db.pmt": true, "index.pmt": true, "main.pix": true, "overflow.pix": true}
 	for _, n := range s.FS.NamesIn(explore.DBPath) {
-		if allowed[n] {
-			continue
+		switch {
+		case n == "lock":
+		case strings.HasSuffix(n, refmodel.SegmentExt):
+			if !live[n] {
+				return fmt.Sprintf("segment file %q belongs to no live segment (live segments: %v)", n, keys(live))
+			}
+		case strings.HasSuffix(n, refmodel.SegmentExt+".pmt"):
+			if !live[strings.TrimSuffix(n, ".pmt")] {
+				return fmt.Sprintf("metadata side file %q belongs to no live segment (live segments: %v)", n, keys(live))
+			}
+		case strings.HasSuffix(n, ".pmt") || strings.HasSuffix(n, ".pix"):
+			// database / index metadata and index files (not tied to one name: a further metadata file is "database metadata")
+		default:
+			return fmt.Sprintf("directory entry %q belongs to no live segment, index, metadata or lock", n)
 		}
-		if live[n] || (strings.HasSuffix(n, ".pmt") && live[strings.TrimSuffix(n, ".pmt")]) {
-			continue
-		}
-		return fmt.Sprintf("directory entry %q belongs to no live segment, index, metadata or lock (live segments: %v)", n, keys(live))
 	}
 	for n := range live {
 		if !s.FS.Exists(explore.DBPath + "/" + n) {
 			return fmt.Sprintf("live segment %s has no file", n)
 		}
-		if h := s.FS.HandlesOf(explore.DBPath + "/" + n); h != 1 {
-			return fmt.Sprintf("live segment %s has %d open handles, want 1", n, h)
+		if h := s.FS.HandlesOf(explore.DBPath + "/" + n); h < 1 {
+			return fmt.Sprintf("live segment %s has no open handle", n)
 		}
 	}
-	want := len(live) + 3
-	if s.FS.Stats.OpenHandles != want {
-		return fmt.Sprintf("%d open file handles, want %d (live segments %d + 2 index files + lock): a handle leaked or is missing", s.FS.Stats.OpenHandles, want, len(live))
+	if o := s.FS.OrphanHandles(); o != 0 {
+		return fmt.Sprintf("%d open file handle(s) on files that were removed: a descriptor (and, memory-mapped, a mapping) leaked", o)
+	}
+	if max := 2*len(live) + 8; s.FS.Stats.OpenHandles > max {
+		return fmt.Sprintf("%d open file handles for %d live segments (more than 2 per segment + 8): handles are not bounded by the live data", s.FS.Stats.OpenHandles, len(live))
 	}
 	return ""
 }
@@ -244,7 +253,7 @@ func init() {
 	explore.Register(&explore.CheckInfo{
 		Prop:  "C15",
 		Level: "model_checking",
-		Rule: "every word of length <= d over {Put(a),Put(b),Delete(a),Compact,Reopen} from bases E/S2 under ROLL/ROLL1/BIGC; after every step: directory entries subset of live set, open handles == live segments+3, " +
+		Rule: "every word of length <= d over {Put(a),Put(b),Delete(a),Compact,Reopen} from bases E/S2 under ROLL/ROLL1/BIGC; after every step: no segment file or .psg.pmt side file of a dead segment, no unknown kind of file, every live segment open, no open handle on a removed file, handles <= 2 per live segment + 8, " +
 			"removed segments gone with their .pmt and count == CompactedSegments, Sync nil, reads == model; at the end Put/Delete/Backup/Close/Open nil; plus every cyclic word (>=1 write, >=1 Compact) repeated 16x: resource vector must repeat or stop growing; distinct = FS images",
 		Assumptions:   []string{"'bounded forever' is decided as a lasso/no-growth criterion per cyclic workload up to the stated length, not for all workloads", "descriptor/mapping counts are simfs handle counts; real /proc counts are compared in C17"},
 		QuickBudget:   100 * time.Second,
